@@ -25,7 +25,9 @@ PROPERTY = "C05"
 LEVEL = "exploration"
 RULE = (
     "Cases come from the C04 generator (2..5 groups x 2..8 rows, both labels per group, six score level "
-    "sets with distinct levels >= 1e-3 apart, shuffled rows, 7 constraints x admissible objectives x flip "
+    "sets with distinct levels >= 1e-3 apart and per group label-independent / informative / anti-informative "
+    "scores, shuffled rows, 7 constraints x admissible objectives (accuracy and balanced accuracy drawn three "
+    "times as often as the three rate objectives, whose optimum is always a constant classifier) x flip "
     "x grid_size in {1,2,3,7,10,50,1000} x prefit x predict_method x containers). A case is non-trivial "
     "when the reference optimum is strictly better (> 1e-9) than both constant classifiers and at least "
     "two groups have different brute-force envelopes; distinct = distinct canonical JSON. On the cases "
